@@ -29,6 +29,7 @@ func init() {
 
 func c06History(r *h.Rng, p *h.Plan, n int) {
 	ids := []string{"a", "b", "c", "d"}
+	p.Cfg["battery_order"] = r.Pick([]string{"get-search-dispatch", "dispatch-search-get", "search-dispatch-get"})
 	p.Cfg["ids"] = toIface(ids)
 	p.Cfg["locs"] = toIface([]string{"L", "P"})
 	var facts []map[string]interface{}
